@@ -21,9 +21,9 @@
     Which inventory entries (gen/C15_inventory.json, printed in the evidence) have such a theorem and
     which are covered by correspondence + judge only is listed at the end of this file. *)
 From Coq Require Import ZArith List Bool String.
-From V Require Import Base.Int Base.IO Spec.Gregorian Model.Strftime Proofs.C15 Proofs.C15Owners Proofs.C15Strftime Proofs.C15Wide Proofs.C15Text Proofs.C15Utf8 Proofs.C15SfItems Proofs.C15Deep Proofs.C15Format Proofs.C15Errors.
+From V Require Import Base.Int Base.IO Spec.Gregorian Model.Strftime Proofs.C15 Proofs.C15Owners Proofs.C15Strftime Proofs.C15Wide Proofs.C15Text Proofs.C15Utf8 Proofs.C15SfItems Proofs.C15Deep Proofs.C15Format Proofs.C15Errors Proofs.C15Serde.
 From V Require Model.Date Model.Time Model.DateTime Model.TimeDelta Model.DateExtra Model.Parsed Model.Parse Model.Rfc3339 Model.Show Model.Round Model.C02 Model.C15 Model.C19 Gen.Strftime
-               Base.Utf8 Model.Scan Model.FromStr Model.Rfc2822 Model.Format Proofs.C12 Proofs.C13Total Proofs.C13Time Proofs.C14.
+               Base.Utf8 Model.Scan Model.FromStr Model.Rfc2822 Model.Format Model.Serde Model.ScanNames Proofs.C12 Proofs.C13Total Proofs.C13Time Proofs.C14 Proofs.C19 Proofs.C20Ts.
 Import ListNotations.
 Open Scope Z_scope.
 
@@ -704,6 +704,58 @@ Theorem C15_wdset_debug_total : forall bits,
 Proof. exact wdset_debug_total. Qed.
 Print Assumptions C15_wdset_debug_total.
 
+(** ** The serde carriers (Model/Serde.v; stream, data formats and round trips are C20's) never trap, at full strength (Proofs/C15Serde.v): the string deserializers are the FromStr impls (visit_str = value.parse()) -- every string; a visitor method an impl does not define is serde's invalid-type error, by value; [sval_ok v]: a string handed to visit_str is a string of a length a Rust string can have.  The string serializers of NaiveTime / NaiveDateTime: every value, leap-second fractions on any second included.  The sixteen timestamp helper modules ([Proofs.C20Ts.plain_mods] / [option_mods]: the module numbers of Gen/SerdeConsts.v): serialize of EVERY well-formed date-time (C20_ts_serialize_spec states the written number for non-leap values) *)
+Theorem C15_serde_de_date_total : forall v, 
+  sval_ok v ->
+  returns (Model.Serde.de_date v) /\ forall d, Model.Serde.de_date v = Val (SOk d) -> date_valid d.
+Proof. exact de_date_total. Qed.
+Print Assumptions C15_serde_de_date_total.
+Theorem C15_serde_de_time_total : forall v, 
+  sval_ok v ->
+  returns (Model.Serde.de_time v) /\ forall t, Model.Serde.de_time v = Val (SOk t) -> time_valid t.
+Proof. exact de_time_total. Qed.
+Print Assumptions C15_serde_de_time_total.
+Theorem C15_serde_de_ndt_total : forall v, 
+  sval_ok v ->
+  returns (Model.Serde.de_ndt v) /\ forall a, Model.Serde.de_ndt v = Val (SOk a) -> Proofs.C04.ndt_ok a.
+Proof. exact de_ndt_total. Qed.
+Print Assumptions C15_serde_de_ndt_total.
+Theorem C15_serde_de_dt_fixed_total : forall v, 
+  sval_ok v ->
+  returns (Model.Serde.de_dt_fixed v) /\ forall z, Model.Serde.de_dt_fixed v = Val (SOk z) -> Proofs.C04.dtz_ok z.
+Proof. exact de_dt_fixed_total. Qed.
+Print Assumptions C15_serde_de_dt_fixed_total.
+Theorem C15_serde_de_dt_utc_total : forall v, 
+  sval_ok v ->
+  returns (Model.Serde.de_dt_utc v) /\
+  forall z, Model.Serde.de_dt_utc v = Val (SOk z) -> Proofs.C04.dtz_ok z /\ Model.DateTime.dz_off z = 0.
+Proof. exact de_dt_utc_total. Qed.
+Print Assumptions C15_serde_de_dt_utc_total.
+(* Weekday / Month: the premises of C15_weekday_month_from_str_total on the string *)
+Theorem C15_serde_de_names_total : forall v, 
+  (forall s, v = Model.Serde.SStr s -> Forall Proofs.C19.byte s /\ Model.ScanNames.utf8_valid s = true) ->
+  returns (Model.Serde.de_wd v) /\ returns (Model.Serde.de_mo v).
+Proof. exact de_names_total. Qed.
+Print Assumptions C15_serde_de_names_total.
+Theorem C15_serde_ser_time_total : forall t, 
+  time_valid t -> returns (Model.Serde.ser_time t).
+Proof. exact ser_time_total. Qed.
+Print Assumptions C15_serde_ser_time_total.
+Theorem C15_serde_ser_ndt_total : forall a, 
+  Proofs.C04.ndt_ok a -> returns (Model.Serde.ser_ndt a).
+Proof. exact ser_ndt_total. Qed.
+Print Assumptions C15_serde_ser_ndt_total.
+(* timestamp() / _millis() / _micros() do not overflow anywhere in the range (C02_timestamp*_no_overflow), timestamp_nanos_opt() = None is the custom error *)
+Theorem C15_serde_ts_serialize_total : forall m a, 
+  In m Proofs.C20Ts.plain_mods -> Proofs.C04.ndt_ok a -> returns (Model.Serde.ts_serialize m a).
+Proof. exact ts_serialize_total. Qed.
+Print Assumptions C15_serde_ts_serialize_total.
+Theorem C15_serde_ts_serialize_option_total : forall m o, 
+  In m Proofs.C20Ts.option_mods -> (forall a, o = Some a -> Proofs.C04.ndt_ok a) ->
+  returns (Model.Serde.ts_serialize_option m o).
+Proof. exact ts_serialize_option_total. Qed.
+Print Assumptions C15_serde_ts_serialize_option_total.
+
 (** ** The format-string iterator NEVER TRAPS (dedicated proof, Proofs/C15Strftime.v: every slice of strftime.rs is taken at a character boundary of the well-formed input, the index arithmetic stays in usize, assert!(nextspec > 0) holds), strict or lenient, with or without the repair of error(); with C12's termination theorem: it yields a finite item list of at most 13 items per byte, and StrftimeItems::parse / parse_to_owned / count return *)
 Theorem C15_strftime_never_panics : forall s lenient fuel, 
   valid s = true -> blen s <= u64_max ->
@@ -765,6 +817,12 @@ Example C15_wide_hypotheses_inhabited :
     = Val (inl (Model.DateTime.mk_ndt Proofs.C07Ndt.leap_date (Model.Time.mk_time 86399 1000000000))).
 Proof. exact wide_hypotheses_inhabited. Qed.
 Print Assumptions C15_wide_hypotheses_inhabited.
+
+Example C15_serde_hypotheses_inhabited :
+  sval_ok (Model.Serde.SStr ex_text) /\ sval_ok Model.Serde.SUnit /\ In 6 Proofs.C20Ts.plain_mods /\ In 7 Proofs.C20Ts.option_mods /\
+  Proofs.C04.ndt_ok l_wide.
+Proof. exact serde_hypotheses_inhabited. Qed.
+Print Assumptions C15_serde_hypotheses_inhabited.
 
 Example C15_errors_hypotheses_inhabited :
   err_dom 0 6 = true /\ err_dom 8 1 = false /\ date_valid Model.Date.D_MAX /\
@@ -909,6 +967,31 @@ Print Assumptions C15_deep_hypotheses_inhabited.
        Parsed::set_week_from_sun; Parsed::set_week_from_mon; Parsed::set_isoweek; Parsed::set_weekday;
        Parsed::set_ordinal; Parsed::set_day; Parsed::set_ampm; Parsed::set_hour12; Parsed::set_hour;
        Parsed::set_minute; Parsed::set_second; Parsed::set_nanosecond; Parsed::set_timestamp; Parsed::set_offset;
+     C15_serde_de_date_total
+       <NaiveDate as de::Deserialize<'de>>::deserialize;
+     C15_serde_de_dt_fixed_total
+       <DateTime<FixedOffset> as de::Deserialize<'de>>::deserialize;
+     C15_serde_de_dt_utc_total
+       <DateTime<Utc> as de::Deserialize<'de>>::deserialize;
+     C15_serde_de_names_total
+       <Month as de::Deserialize<'de>>::deserialize; <Weekday as de::Deserialize<'de>>::deserialize;
+     C15_serde_de_ndt_total
+       <NaiveDateTime as de::Deserialize<'de>>::deserialize;
+     C15_serde_de_time_total
+       <NaiveTime as de::Deserialize<'de>>::deserialize;
+     C15_serde_ser_ndt_total
+       <NaiveDateTime as ser::Serialize>::serialize;
+     C15_serde_ser_time_total
+       <NaiveTime as ser::Serialize>::serialize;
+     C15_serde_ts_serialize_option_total
+       serde::ts_nanoseconds_option::serialize#1; serde::ts_microseconds_option::serialize#1;
+       serde::ts_milliseconds_option::serialize#1; serde::ts_seconds_option::serialize#1;
+       serde::ts_nanoseconds_option::serialize#2; serde::ts_microseconds_option::serialize#2;
+       serde::ts_milliseconds_option::serialize#2; serde::ts_seconds_option::serialize#2;
+     C15_serde_ts_serialize_total
+       serde::ts_nanoseconds::serialize#1; serde::ts_microseconds::serialize#1;
+       serde::ts_milliseconds::serialize#1; serde::ts_seconds::serialize#1; serde::ts_nanoseconds::serialize#2;
+       serde::ts_microseconds::serialize#2; serde::ts_milliseconds::serialize#2; serde::ts_seconds::serialize#2;
      C15_show_date_total
        <NaiveDate as fmt::Debug>::fmt; <NaiveDate as fmt::Display>::fmt;
      C15_show_dtz_total
@@ -1034,30 +1117,24 @@ Print Assumptions C15_deep_hypotheses_inhabited.
        serde::ts_milliseconds::deserialize#2; serde::ts_seconds::deserialize#2;
 
    OWNER's theorem on a stated sub-domain (partial; elsewhere correspondence + judge):
-     owner-partial: C20_serde_roundtrip_date
-       <NaiveDate as de::Deserialize<'de>>::deserialize;
-     owner-partial: C20_serde_roundtrip_dt_fixed
-       <DateTime<FixedOffset> as de::Deserialize<'de>>::deserialize;
-     owner-partial: C20_serde_roundtrip_dt_utc
-       <DateTime<Utc> as de::Deserialize<'de>>::deserialize;
-     owner-partial: C20_serde_roundtrip_month
-       <Month as de::Deserialize<'de>>::deserialize;
-     owner-partial: C20_serde_roundtrip_ndt
-       <NaiveDateTime as ser::Serialize>::serialize; <NaiveDateTime as de::Deserialize<'de>>::deserialize;
-     owner-partial: C20_serde_roundtrip_time
-       <NaiveTime as ser::Serialize>::serialize; <NaiveTime as de::Deserialize<'de>>::deserialize;
-     owner-partial: C20_serde_roundtrip_weekday
-       <Weekday as de::Deserialize<'de>>::deserialize;
-     owner-partial: C20_ts_serialize_option_spec
-       serde::ts_nanoseconds_option::serialize#1; serde::ts_microseconds_option::serialize#1;
-       serde::ts_milliseconds_option::serialize#1; serde::ts_seconds_option::serialize#1;
-       serde::ts_nanoseconds_option::serialize#2; serde::ts_microseconds_option::serialize#2;
-       serde::ts_milliseconds_option::serialize#2; serde::ts_seconds_option::serialize#2;
-     owner-partial: C20_ts_serialize_spec
-       serde::ts_nanoseconds::serialize#1; serde::ts_microseconds::serialize#1;
-       serde::ts_milliseconds::serialize#1; serde::ts_seconds::serialize#1; serde::ts_nanoseconds::serialize#2;
-       serde::ts_microseconds::serialize#2; serde::ts_milliseconds::serialize#2; serde::ts_seconds::serialize#2;
 
    correspondence + judge ONLY:
+
+   What the theorems above do NOT state, and why (covered by the correspondence run + judge only):
+     - premises kept: [str_ok] / the length bounds (a Rust string has at most isize::MAX bytes, so the premise
+       excludes nothing real); Gen.Strftime.SF_ERROR_CONSUMES = true (the repaired error() of strftime.rs: on an
+       unrepaired tree the strict iterator yields Error items for ever and the theorems do not apply -- the
+       check then reports the hang through c15.itemcount / sf.items); [Proofs.C14.typed] (the Rust types of the
+       Parsed fields); [Proofs.C12.args_view] (discharged for every value by the *_has_view lemmas of
+       Proofs/C15Format.v, stated inside C15_delayed_format_items_total / _strftime_total);
+     - the 45 entries under OWNER: the owner's theorem already has the form [f args = Val ...] for all typed
+       arguments; they are not restated here (a restatement would add no proof);
+     - not modelled at all, hence outside every theorem: the Local zone and its tz_info reader (C05 / C16 / C18,
+       environment dependent; excluded from the inventory by the property text), the locale-aware formatting
+       of the unstable-locales feature, serde's own dispatch and the data formats (C20 trusted base), rkyv /
+       arbitrary glue, and everything core::fmt does below a write! with arguments (padding of integers:
+       modelled by Model.Format.fmt_int, compared with the code by the correspondence run);
+     - the link between model and code itself: every theorem is about the Gallina model; that the model IS the
+       code is the correspondence run (same cases through implrun and modelrun) -- see trusted_base.json.
 
 *)
